@@ -1,6 +1,32 @@
 """C07 — expression templates evaluate to their coefficient-wise meaning."""
+import json, os
+import checklib as cl
 import exprcheck as xc
 import props
+
+
+def translators(repo):
+    """source-level tie of the expression-template evaluation machinery: Generated/ExprAst.lean is re-translated from clang's AST on every
+    run (serial and SSE builds, 7 expression shapes x uint32_t / uint64_t x two Degree/NbModuli pairs that must give the same text; std::get
+    indices resolved through wrapper instantiations; functor calls matched to Generated/OpsAst.lean / SimdAst.lean by C++ name and source line);
+    the equalities with Ex.assign / assignW / construct / polyToBool and the resolved-data checks (Proofs/ExprAstEq.lean, Properties/C07Ast.lean)
+    are then re-checked by `lake build`."""
+    out = {}
+    for script in ("gen_ops_ast.py", "gen_simd_ast.py", "gen_expr_ast.py"):     # the functors the evaluators call are regenerated first
+        r = cl.run(["python3", os.path.join(cl.HERE, script), "--repo", repo])
+        info = {"ok": r.returncode == 0}
+        if r.returncode != 0:
+            info["err"] = (r.stdout + r.stderr)[-2000:]
+        else:
+            try:
+                info.update(json.loads(r.stdout.strip().splitlines()[-1]))
+                info.pop("node_kinds", None)
+            except Exception as e:
+                if script == "gen_expr_ast.py":
+                    info["ok"] = False
+                    info["err"] = "unparsable summary: %s" % e
+        out[script[:-3]] = info
+    return out
 
 
 FUNCTOR_OPS = ("addmod", "submod", "mulmod", "cshoup", "mulshoup4")
@@ -19,7 +45,7 @@ def search(ctx, res, problems):
 
 
 PROP = {
-    "streams": streams, "search": search,
+    "streams": streams, "search": search, "translators": translators,
     "rule": "generated C++ translation units (tools/gen_expr.py), one assignment per case: a deterministic set of small shapes "
             "(a op b, a+b*c, shoup(a*b,b'), (a-b)+shoup(c*b,b'), compute_shoup, nested) with every aliasing pattern of the destination "
             "with the leaves, plus random trees predicted to compile for the limb/backend (depth <= 4 quick, <= 6 thorough), poly and poly_p "
@@ -40,6 +66,12 @@ PROP = {
         "the compile predictor (which shapes each backend accepts) is a generator aid kept honest by -fsyntax-only probes in both directions: rejected shapes are "
         "outside the property; the rejected families are enumerated systematically (tools/gen_expr.py family_keys) over small trees (operands of depth <= 2) - a "
         "shape that starts to compile only at larger depth and in no enumerated family is not seen",
+        "source-level tie of the evaluation machinery (poly::operator=(expr), poly(expr), poly::load, expr::load/_load, _make_op incl. the shoup(mulmod) fusion, the operator "
+        "overloads, simd::serial/sse::load/store, poly::operator bool): clang++-14's typed AST of the instantiations of build/expr_ast_tu_{serial,sse}.cpp, tools/gen_expr_ast.py's "
+        "traversal, the heap/object/loop semantics lean/NflVerif/Model/CSemExpr.lean (a poly reference = object number, an expr object = its args tuple, forSt with fuel 2^64) + CSem.lean; "
+        "BY NAME: std::get<I> on expr::args (I resolved by clang through nflverif_get wrappers), the std::tuple-of-references constructor, Op{}(x..., cm) -> the functor of "
+        "Generated/OpsAst.lean / SimdAst.lean with the same C++ qualified name and source line, _mm_load_si128/_mm_store_si128 (16-byte alignment assumed: alignment_sites), std::begin/end/find_if; "
+        "class constants degree / nmoduli / P / Pn are parameters; the 7 shapes x 2 limb types (+3 SSE) are instantiations, not all expression types",
         "SIMD kernels are lane-wise the scalar functors (hypothesis Kernels.Lanewise of kernel_irrelevant; established for the functors by the C03 stream, observed again here per assignment)",
     ],
     "assumptions": ["canonical operands (< p) at every + - * and fused product; third operand of a fused product is the precomputed quotient of the second (Adm)",
